@@ -33,6 +33,7 @@ from .exceptions import XMLSchemaValidationError, XMLSchemaParseError, \
     XMLSchemaCircularityError, XMLSchemaDecodeError, XMLSchemaEncodeError
 from .validation import ValidationContext, EncodeContext, ValidationMixin, DecodeContext
 from .xsdbase import XsdComponent, XsdType
+from .helpers import integer_to_python
 from .facets import XsdFacet, XsdWhiteSpaceFacet, XsdPatternFacets, \
     XsdEnumerationFacets, XsdAssertionFacet, MULTIPLE_FACETS
 
@@ -690,7 +691,12 @@ class XsdAtomicBuiltin(XsdAtomic):
         super().__init__(elem, schema, None, name, facets, base_type)
         self.datatype = datatype
         self.python_type = python_type
-        self.to_python = to_python if to_python is not None else python_type
+        if to_python is not None:
+            self.to_python = to_python
+        elif python_type is int:
+            self.to_python = integer_to_python  # int() accepts more than the xs:integer lexical space
+        else:
+            self.to_python = python_type
         self.from_python = from_python if from_python is not None else str
 
         self.post_decode = name in (nm.XSD_QNAME, nm.XSD_NOTATION, nm.XSD_ID, nm.XSD_IDREF)
